@@ -133,6 +133,9 @@ the *next take* on it panics). -/
 structure St where
   sched : Schedule
   emptyClones : Nat
+  /-- number of closure activations served so far (an observable of the run, used to check that an
+  abstract schedule derived from a real engine trace is consumed the way it was meant) -/
+  acts : Nat
   deriving Repr, Inhabited
 
 inductive Outcome where
@@ -194,7 +197,7 @@ def window : Nat → Bool → List Clo → St → Res Cfg
       match cs[n]? with
       | none => .ok (c, cs, { st with sched := s })
       | some clo =>
-        match activate f c clo { st with sched := s } with
+        match activate f c clo { st with sched := s, acts := st.acts + 1 } with
         | .ok (c', clo', st') => window f c' (cs.set n clo') st'
         | .fail o => .fail o
 /-- One invocation of a pull-time closure created by a pipeline whose cell currently is `c`:
@@ -221,12 +224,23 @@ structure Plan where
   deriving Inhabited
 
 def run (p : Plan) (sched : Schedule) (fuel : Nat) : Outcome :=
-  match construct fuel p.items true [] ⟨sched, 0⟩ with
+  match construct fuel p.items true [] ⟨sched, 0, 0⟩ with
   | .ok (c, cs, st) =>
     match window fuel c cs st with
     | .ok (_, _, st') => if st'.emptyClones = 0 then .ok else .cloneOfNone
     | .fail o => o
   | .fail o => o
+
+/-- The same run, reporting also how many closure activations were served and how much of the
+schedule was left unread (`none` when the run failed). -/
+def runStats (p : Plan) (sched : Schedule) (fuel : Nat) : Outcome × Option (Nat × Nat) :=
+  match construct fuel p.items true [] ⟨sched, 0, 0⟩ with
+  | .ok (c, cs, st) =>
+    match window fuel c cs st with
+    | .ok (_, _, st') =>
+      (if st'.emptyClones = 0 then .ok else .cloneOfNone, some (st'.acts, st'.sched.length))
+    | .fail o => (o, none)
+  | .fail o => (o, none)
 
 /-! ### the plan of an IR query (`execution.rs`, function by function) -/
 
